@@ -39,7 +39,7 @@ func uniPred(name string, f func(rune) bool) func(c *Ctx, args []Value) Value {
 		if r.isC {
 			return Bool(f(rune(int32(r.cval))))
 		}
-		acc := Var(fmt.Sprintf("uf_%s_%d", name, r.id), 0)
+		acc := mk(&Term{op: "uf:" + name, args: []*Term{r}, width: 0}) // functional: equal runes get equal answers
 		low := Bool(false)
 		k := 0
 		for k < 0x100 {
